@@ -379,4 +379,237 @@ theorem rebooting_run (g : GW) (ops : List Op) (k : Int) (hr : rebooting g k) (h
   | nil => exact hr
   | cons op ops ih => exact ih _ (rebooting_step g op k hr hu.1) hu.2
 
+/-! ### what is sent: stream replies -/
+
+theorem numDigits_small (n : Int) (h0 : 0 ≤ n) (h : n < 1000) : numDigits n ≤ PyTables.intMaxDigits := by
+  have e : (10 : Nat) ^ 3 = 1000 := by decide
+  have := natDigits_length_le n.natAbs 3 (by omega) (by omega)
+  unfold numDigits
+  exact Nat.le_trans this (by decide)
+
+/-- table facts: the stream sub-types and their handlers, the reboot request, in every version -/
+theorem ota_tables (c : ConstId) :
+    ∃ cq cr bq br rb, (Tables.tables c).stConfigRequest = some cq ∧ (Tables.tables c).stConfigResponse = some cr ∧
+      (Tables.tables c).stRequest = some bq ∧ (Tables.tables c).stResponse = some br ∧
+      lookup cq (Tables.tables c).streamHandlers = some .handle_firmware_config_request ∧
+      lookup bq (Tables.tables c).streamHandlers = some .handle_firmware_request ∧
+      (Tables.tables c).iReboot = some rb ∧
+      numDigits rb ≤ PyTables.intMaxDigits ∧ numDigits (Tables.tables c).mtInternal ≤ PyTables.intMaxDigits := by
+  cases c <;> exact ⟨_, _, _, _, _, rfl, rfl, rfl, rfl, by decide, by decide, rfl,
+    numDigits_small _ (by decide) (by decide), numDigits_small _ (by decide) (by decide)⟩
+
+/-- stream messages are never withheld -/
+theorem route_stream (g : GW) (rep : Msg) (ht : rep.type = g.t.mtStream) : route g rep = emit g [encLine rep] := by
+  have hne : ¬ rep.type = g.t.mtPresentation := by rw [ht]; exact (handler_of_type g.const).2.2.2.1
+  have hh : holds g rep = false := by
+    unfold holds
+    cases aget rep.node g.sensors <;> simp [ht]
+  simp [route, hne, hh]
+
+theorem out_cb_append (m : Msg) (o : Out) (he : o.cbs = []) (hs : o.subs = []) :
+    (({ cbs := [m] } : Out) ++ o) = { sent := o.sent, cbs := [m], exc := o.exc } := by
+  show Out.append _ _ = _
+  simp [Out.append, he, hs]
+
+/-- a responder result without exception: the callback fires, the reply (if any) is sent -/
+theorem finishStream_ok (r : StreamRes) (m : Msg) (he : r.exc = none)
+    (ht : ∀ rep, r.reply = some rep → rep.type = r.g.t.mtStream) :
+    finishStream r m = ((alert r.g m).1, { sent := (r.reply.map encLine).toList, cbs := [m] }) := by
+  unfold finishStream
+  simp only [he]
+  unfold seq
+  simp only [alert]
+  cases hr : r.reply with
+  | none => simp [ret, out_cb_append]
+  | some rep =>
+    have := route_stream { r.g with needSave := if r.g.persist then true else r.g.needSave } rep (ht rep hr)
+    simp only [this, emit]
+    rw [out_cb_append _ _ rfl rfl]
+    rfl
+
+theorem handleStream_known (g : GW) (m : Msg) (h : HandlerId) (hk : knownNode g m.node = true)
+    (hl : lookup m.sub g.t.streamHandlers = some h) :
+    handleStream g m = finishStream (streamResBy h g m) m := by
+  unfold handleStream ifKnown
+  rw [isKnown_none, hk]
+  simp only [↓reduceIte, hl]
+
+theorem handleStream_unknown (g : GW) (m : Msg) (hk : knownNode g m.node = false) :
+    handleStream g m = requestPresentation g m.node := by
+  unfold handleStream ifKnown
+  rw [isKnown_none, hk]
+  simp
+
+/-- an accepted config / block request of a known node, against the automaton's output `sp` -/
+theorem stream_step (g : GW) (line : Str) (m : Msg) (h : HandlerId) (sp : Session × Option Msg)
+    (hd : decode line = some m) (hv : validate g.const m = true) (ht : m.type = g.t.mtStream)
+    (hk : knownNode g m.node = true) (hl : lookup m.sub g.t.streamHandlers = some h)
+    (href : Refines g m (streamResBy h g m) sp) (hty : ∀ rep, sp.2 = some rep → rep.type = m.type) :
+    (logic g line).2 = { sent := (sp.2.map encLine).toList, cbs := [m] } ∧
+    absSession (logic g line).1.ota m.node = sp.1 ∧
+    (∀ n, n ≠ m.node → absSession (logic g line).1.ota n = absSession g.ota n) ∧
+    (logic g line).1.ota.firmware = g.ota.firmware ∧
+    (logic g line).1.sensors = g.sensors := by
+  have hc := (streamResBy_frame h g m).2
+  rw [logic_stream g line m hd hv ht, handleStream_known g m h hk hl,
+    finishStream_ok _ m href.exc (by
+      intro rep hr
+      rw [href.reply] at hr
+      rw [hty rep hr, ht]
+      show (Tables.tables g.const).mtStream = (Tables.tables (streamResBy h g m).g.const).mtStream
+      rw [hc])]
+  refine ⟨by rw [href.reply], href.session, href.others, href.fw, ?_⟩
+  exact (streamResBy_frame h g m).1
+
+theorem streamResBy_idle (h : HandlerId) (g : GW) (m : Msg) (hi : absSession g.ota m.node = .idle) :
+    (streamResBy h g m).reply = none ∧ (streamResBy h g m).g = g := by
+  obtain ⟨a, b, c⟩ := abs_idle_inv hi
+  unfold streamResBy
+  split
+  · rw [config_nopick g m (pickConfig_none a b)]; exact ⟨rfl, rfl⟩
+  · rw [block_nopick g m (pickBlock_none b c)]; exact ⟨rfl, rfl⟩
+  · exact ⟨rfl, rfl⟩
+
+theorem finishStream_silent (r : StreamRes) (m : Msg) (hr : r.reply = none) : (finishStream r m).2.sent = [] := by
+  unfold finishStream
+  split
+  · rfl
+  · unfold seq
+    simp only [alert, hr, ret]
+    rfl
+
+/-- any stream message of a known node whose session is idle: nothing is sent, no store changes -/
+theorem idle_silent (g : GW) (m : Msg) (hk : knownNode g m.node = true) (hi : absSession g.ota m.node = .idle) :
+    (handleStream g m).2.sent = [] ∧ (handleStream g m).1.ota = g.ota := by
+  cases hl : lookup m.sub g.t.streamHandlers with
+  | none =>
+    unfold handleStream ifKnown
+    rw [isKnown_none, hk]
+    simp [hl, ret]
+  | some h =>
+    rw [handleStream_known g m h hk hl]
+    obtain ⟨h1, h2⟩ := streamResBy_idle h g m hi
+    refine ⟨finishStream_silent _ m h1, ?_⟩
+    have : OtaKept (streamResBy h g m).g (finishStream (streamResBy h g m) m).1 := q_finishStream otaKeptRel _ m
+    rw [this, h2]
+
+/-! ### what is sent: the reboot request -/
+
+/-- the reboot request for the node of `m`: child 255, type internal, ack 0, sub I_REBOOT, empty payload -/
+def rebootMsg (g : GW) (m : Msg) (sub : Int) : Msg := ⟨m.node, Tables.systemChildId, g.t.mtInternal, 0, sub, []⟩
+
+theorem aset_ne_nil {ν} (k : Int) (v : ν) (l : List (Int × ν)) : aset k v l ≠ [] := by
+  cases l with
+  | nil => simp [aset]
+  | cons p l => obtain ⟨k', v'⟩ := p; by_cases h : k = k' <;> simp [aset, h]
+
+theorem clearDesired_sleeping (n : Node) (c vt : Int) : (clearDesired n c vt).sleeping = n.sleeping := by
+  unfold clearDesired
+  split
+  · rfl
+  · rename_i dv hdv
+    have h1 : n.desired ≠ [] := by intro e; rw [e] at hdv; simp at hdv
+    have h2 := aset_ne_nil c (aset vt none dv) n.desired
+    simp only [Node.sleeping]
+    cases hx : n.desired with
+    | nil => exact absurd hx h1
+    | cons a b =>
+      cases hy : aset c (aset vt none dv) (a :: b) with
+      | nil => rw [hx] at h2; exact absurd hy h2
+      | cons a' b' => rfl
+
+theorem updateChildValue_sleeping (n : Node) (c vt : Int) (v : Str) : (updateChildValue n c vt v).sleeping = n.sleeping := by
+  unfold updateChildValue; split
+  · rfl
+  · rw [clearDesired_sleeping]; rfl
+
+theorem clearDesired_queue (n : Node) (c vt : Int) : (clearDesired n c vt).queue = n.queue := by
+  unfold clearDesired; split <;> rfl
+
+theorem updateChildValue_queue (n : Node) (c vt : Int) (v : Str) : (updateChildValue n c vt v).queue = n.queue := by
+  unfold updateChildValue; split
+  · rfl
+  · rw [clearDesired_queue]
+
+/-- where the reboot request goes: sent at once, or appended to the hold queue of a sleeping node -/
+def deliverReboot (g3 : GW) (m : Msg) (reb : Msg) (sleeping : Bool) : Res :=
+  if sleeping then (enqueue g3 m.node (encLine reb), { cbs := [m] })
+  else (g3, { sent := [encLine reb], cbs := [m] })
+
+/-- an accepted set message of a known child of a rebooting node: value stored, callback, and
+    exactly one reply — the reboot request -/
+theorem handleSet_rebooting (g : GW) (line : Str) (m : Msg) (n : Node) (sub : Int) (hd : decode line = some m)
+    (hn : aget m.node g.sensors = some n) (hc : (aget m.child n.children).isSome = true)
+    (hb : n.reboot = true) (hs : g.t.iReboot = some sub) :
+    handleSet g m = deliverReboot (alert (setNode g m.node (updateChildValue n m.child m.sub m.payload)) m).1 m
+      (rebootMsg g m sub) n.sleeping := by
+  have hk : isKnown g m.node (some m.child) = true := by simp [isKnown, hn, hc]
+  unfold handleSet ifKnown
+  simp only [hk, ↓reduceIte, withNode, hn]
+  unfold seq
+  simp only [alert, hb, rebootReply, ↓reduceIte]
+  have hs' : (Tables.tables g.const).iReboot = some sub := hs
+  simp only [GW.t, setNode, hs', withConst, replyCopy, C02.copy_decoded line m _ hd]
+  have hmod : m.modify { child := some Tables.systemChildId, type := some (Tables.tables g.const).mtInternal, ack := some 0, sub := some sub, payload := some [] } = rebootMsg g m sub := rfl
+  rw [hmod]
+  have hne : ¬ (Tables.tables g.const).mtInternal = (Tables.tables g.const).mtPresentation := (handler_of_type g.const).2.2.2.2.1
+  have hns : ¬ (Tables.tables g.const).mtInternal = (Tables.tables g.const).mtStream := (handler_of_type g.const).2.2.2.2.2
+  unfold route holds
+  simp only [GW.t, rebootMsg, hne, ↓reduceIte, aget_aset_same, updateChildValue_sleeping, hns, decide_false, Bool.not_false, Bool.true_and]
+  unfold deliverReboot
+  cases n.sleeping with
+  | true =>
+    simp only [↓reduceIte, ret]
+    rw [out_cb_append _ _ rfl rfl]
+  | false =>
+    simp only [Bool.false_eq_true, ↓reduceIte, emit]
+    rw [out_cb_append _ _ rfl rfl]
+
+/-- the text of the reboot request -/
+theorem encLine_rebootMsg (g : GW) (line : Str) (m : Msg) (sub : Int) (hd : decode line = some m)
+    (hs : g.t.iReboot = some sub) : encLine (rebootMsg g m sub) = canon (rebootMsg g m sub) := by
+  obtain ⟨_, _, _, _, rb, _, _, _, _, _, _, hrb, h1, h2⟩ := ota_tables g.const
+  have e : sub = rb := by
+    have : some sub = some rb := by rw [← hs]; exact hrb
+    exact Option.some.inj this
+  subst e
+  have hl : intsWithinLimit (rebootMsg g m sub) :=
+    ⟨(decode_some line m hd).2.1, numDigits_small 255 (by decide) (by decide), h2, numDigits_small 0 (by decide) (by decide), h1⟩
+  simp [encLine, encode_eq_canon _ hl]
+
+/-! ### executable forms (for the non-vacuity examples) -/
+
+instance decNeverScheduled (n : Int) : (g : GW) → (ops : List Op) → Decidable (neverScheduled n g ops)
+  | _, [] => isTrue trivial
+  | g, op :: ops =>
+    have := decNeverScheduled n (step g op).1 ops
+    inferInstanceAs (Decidable (schedules g n op = false ∧ neverScheduled n (step g op).1 ops))
+
+instance decUndisturbed (k : Int) : (g : GW) → (ops : List Op) → Decidable (undisturbed k g ops)
+  | _, [] => isTrue trivial
+  | g, op :: ops =>
+    have := decUndisturbed k (step g op).1 ops
+    inferInstanceAs (Decidable (disturbs g k op = false ∧ undisturbed k (step g op).1 ops))
+
+instance decOpBytes : (op : Op) → Decidable (opBytes op)
+  | .update _ _ _ (some img) => inferInstanceAs (Decidable (∀ b ∈ img, b < 256))
+  | .update _ _ _ none => isTrue trivial
+  | .line _ => isTrue trivial
+  | .setValue _ _ _ _ _ => isTrue trivial
+  | .clock _ => isTrue trivial
+  | .metric _ => isTrue trivial
+  | .saveTick => isTrue trivial
+  | .stop => isTrue trivial
+  | .restart => isTrue trivial
+
+/-- the lines sent by each step of a history -/
+def sentsOf (g : GW) : List Op → List (List Str)
+  | [] => []
+  | op :: ops => (step g op).2.sent :: sentsOf (step g op).1 ops
+
+/-- the session of node `n` after each step of a history -/
+def sessionsOf (n : Int) (g : GW) : List Op → List Session
+  | [] => []
+  | op :: ops => absSession (step g op).1.ota n :: sessionsOf n (step g op).1 ops
+
 end MySensors
